@@ -22,7 +22,9 @@ DRIVER = "drv_conn"
 DRIVER_ROOT = "Conn"
 THEOREMS = [
     "C24.connect_one_sub_per_connection",
+    "C24.connect_effective",
     "C24.connect_idempotent_while_connected",
+    "C24.disconnect_closes",
     "C24.refcount_edges",
     "C24.refcount_connected_iff",
     "C24.autoconnect_at_n",
@@ -250,18 +252,19 @@ def canon_model(case, resp):
 
 # =============================================================================== oracle (property text)
 def _present_intervals(case, out):
-    """subscriber -> (from, to): present from its subscribe call until its unsubscribe call, the terminal it received, or the horizon"""
+    """subscriber -> [from, to, why]: present from its subscribe call until its unsubscribe call ("call"), the terminal it
+    received ("terminal"), or the horizon"""
     res = {}
     for t, o in case["ops"]:
         if o[0] == "sub":
-            res[o[1]] = [t, case["horizon"]]
+            res[o[1]] = [t, case["horizon"], "horizon"]
     for t, o in case["ops"]:
-        if o[0] == "unsub" and o[1] in res and t >= res[o[1]][0]:
-            res[o[1]][1] = min(res[o[1]][1], t)
+        if o[0] == "unsub" and o[1] in res and t >= res[o[1]][0] and t < res[o[1]][1]:
+            res[o[1]][1:] = [t, "call"]
     for i, lg in out.items():
         for t, n in lg:
-            if n[0] in ("C", "E"):
-                res[int(i)][1] = min(res[int(i)][1], t)
+            if n[0] in ("C", "E") and (t < res[int(i)][1] or (t == res[int(i)][1] and (case["hot"] or t == res[int(i)][0]))):
+                res[int(i)][1:] = [t, "terminal"]
     return res
 
 
@@ -314,14 +317,14 @@ def oracle(case, o):
         # O3: connected exactly while the subscriber count is positive (edges 0->1, ->0)
         events = []
         order = {i: k for k, (t, x) in enumerate(case["ops"]) if x[0] == "sub" for i in [x[1]]}
-        for i, (a, b) in pres.items():
+        for i, (a, b, _w) in pres.items():
             events.append((a, 0, order[i], +1))
         cnt, exp = 0, []
         # walk through time: arrivals in history order; departures when they happen
-        points = sorted({a for a, _ in pres.values()} | {b for _, b in pres.values()})
+        points = sorted({v[0] for v in pres.values()} | {v[1] for v in pres.values()})
         for p in points:
-            arr = sorted((order[i], i) for i, (a, b) in pres.items() if a == p)
-            dep = [i for i, (a, b) in pres.items() if b == p and a < p]
+            arr = sorted((order[i], i) for i, (a, b, _w) in pres.items() if a == p)
+            dep = [i for i, (a, b, _w) in pres.items() if b == p and a < p]
             for i in dep:
                 cnt -= 1
                 if cnt == 0 and exp and exp[-1][1] is None:
@@ -389,8 +392,11 @@ def oracle(case, o):
                 inside = s < at <= end  # a hot message at the connect instant came before the call; one at the disconnect instant too
             else:
                 # the history's calls at an instant run before the cold messages due at that instant
-                ended_by_call = any(tt == end and xx[0] in ("disconnect", "unsub") for tt, xx in case["ops"]) or end == case["horizon"]
-                inside = s < at < end or (at == end and not ended_by_call)
+                # (a terminal due at `end` was delivered iff it ended the subscription itself: somebody received it then, or no call is there)
+                ender = {"raw": "disconnect", "refcount": "unsub"}.get(case["wrap"])
+                ended_by_call = any(tt == end and xx[0] == ender for tt, xx in case["ops"]) or end == case["horizon"]
+                seen_then = any([at, n] in lg for lg in o["out"].values())
+                inside = s < at < end or (at == end and n[0] != "N" and (seen_then or not ended_by_call))
             if inside:
                 feed.append((at, n))
     feed.sort(key=lambda x: x[0])
@@ -402,12 +408,15 @@ def oracle(case, o):
     feed = acc
     term = feed[-1] if feed and feed[-1][1][0] in ("C", "E") else None
     for i, lg in o["out"].items():
-        a, b = pres[int(i)]
-        # hot messages at the subscription instant were delivered before the call; cold ones after it
-        later = [[t, n] for t, n in feed if (t > a) and (t < b or (t == b and [t, n] in lg))]
-        vals_before = [n[1] for t, n in feed if t <= a and n[0] == "N"] if case["hot"] else [n[1] for t, n in feed if t < a and n[0] == "N"]
-        if not case["hot"]:
-            later = [[t, n] for t, n in feed if (t >= a) and (t < b or (t == b and [t, n] in lg))]
+        a, b, why = pres[int(i)]
+        if case["hot"]:
+            # a hot message at an instant precedes the calls of that instant
+            later = [[t, n] for t, n in feed if a < t <= b]
+            vals_before = [n[1] for t, n in feed if t <= a and n[0] == "N"]
+        else:
+            # a cold message at an instant follows the calls of that instant
+            later = [[t, n] for t, n in feed if a <= t < b or (t == b and why == "terminal" and n[0] != "N")]
+            vals_before = [n[1] for t, n in feed if t < a and n[0] == "N"]
         stopped_before = term is not None and (term[0] <= a if case["hot"] else term[0] < a)
         prelude = []
         if case["subject"] == "behavior" and not stopped_before:
